@@ -418,6 +418,33 @@ func finVerify(st *State, fs *finState, f []string) Result {
 
 // ---------------------------------------------------------------- generator
 
+// finMaskSweep: the certificate `lb` (signed for `mask`) replayed with every single mask bit 0..63
+// flipped in turn (full) or with the high and boundary bits flipped, and with groups of high bits set:
+// positions outside the key vector included. Every one of them must be rejected.
+func finMaskSweep(r *Rand, lb string, mask uint64, hs string, ts, round uint64, n int, full bool) []string {
+	var lines []string
+	add := func(m uint64) {
+		if m != mask {
+			lines = append(lines, fmt.Sprintf("fin 2 %s %x %s %d %d 0", lb, m, hs, ts, round))
+		}
+	}
+	if full {
+		for b := 0; b < 64; b++ {
+			add(mask ^ (1 << uint(b)))
+		}
+	} else {
+		for _, b := range []int{63, 62, 61, 56, 48, 32, n - 1, n, n + 1, r.Intn(64)} {
+			if b >= 0 && b < 64 {
+				add(mask ^ (1 << uint(b)))
+			}
+		}
+	}
+	for _, g := range []uint64{1 << 63, 3 << 62, 0xff << 56, 0xffffffff << 32, ^uint64(0) << uint(n%64), 1<<63 | 1<<uint(n%64)} {
+		add(mask | g)
+	}
+	return lines
+}
+
 // finGenThresholdCase: the removal scenario of memGenLegacyScenario; real certificates of exactly
 // t-1, t, t+1 signers for the threshold t of each key vector verifyFinalization may use (the vector at
 // the snapshot timestamp, and in legacy mode the longer vector of the hour before the window).
@@ -435,6 +462,7 @@ func finGenThresholdCase(r *Rand) []string {
 		vecs = append(vecs, vec{sc.lts, sc.g})
 	}
 	label := 0
+	swept := false
 	round := uint64(r.Range(1, 2))
 	for _, v := range vecs {
 		t := v.n*2/3 + 1
@@ -461,6 +489,11 @@ func finGenThresholdCase(r *Rand) []string {
 			fin := fmt.Sprintf("fin 2 %s %x %s %d %d 0", lb, mask, hs, sc.snapTs, round)
 			lines = append(lines, fmt.Sprintf("sign %s %d %d %x %s", lb, round, v.signTs, mask, hs), fin)
 			if r.Chance(1, 3) {
+				lines = append(lines, fin)
+			}
+			if k >= t && !swept {
+				swept = true
+				lines = append(lines, finMaskSweep(r, lb, mask, hs, sc.snapTs, round, v.n, true)...)
 				lines = append(lines, fin)
 			}
 		}
@@ -532,6 +565,9 @@ func finGen(r *Rand, i int, tier string) []string {
 			}
 			honest := fin(2, lb, mask, hs, ts, round, 0)
 			lines = append(lines, honest)
+			if label == 1 && signTs == ts {
+				lines = append(lines, finMaskSweep(r, lb, mask, hs, ts, round, len(h.genesis), r.Chance(1, 8))...)
+			}
 			for k := r.Intn(4); k > 0; k-- {
 				switch r.Intn(11) {
 				case 9: // altered first on a cold cache, then the honest one, then the altered one again
@@ -571,7 +607,7 @@ func finGen(r *Rand, i int, tier string) []string {
 func init() {
 	Register(&Subsystem{
 		Name: "finality",
-		Rule: "case = generated membership history in a real kernel.Node, one or two chains, 2–5 real CoSi certificates (signed by the holders of the masked keys of ConsensusKeys(round, ts) with the repository's crypto) each verified by the real verifyFinalization as signed, repeated (cache hit), after a cache flush, and altered (mask bit flipped, signature bit flipped, other hash, other timestamp/round/version, missing signature); 1 case in 5: a removal inside the node-operation window (mainnet before the fork, mainnet after, other networks) with certificates of exactly t-1, t, t+1 signers for the threshold of the current and of the legacy key vector; non-trivial = a verification of a snapshot that carries a signature and a non-zero mask",
+		Rule: "case = generated membership history in a real kernel.Node, one or two chains, 2–5 real CoSi certificates (signed by the holders of the masked keys of ConsensusKeys(round, ts) with the repository's crypto) each verified by the real verifyFinalization as signed, repeated (cache hit), after a cache flush, and altered (mask bit flipped, signature bit flipped, other hash, other timestamp/round/version, missing signature; for one certificate per case every single mask bit 0..63 or the high/boundary bits flipped and groups of high bits set); 1 case in 5: a removal inside the node-operation window (mainnet before the fork, mainnet after, other networks) with certificates of exactly t-1, t, t+1 signers for the threshold of the current and of the legacy key vector; non-trivial = a verification of a snapshot that carries a signature and a non-zero mask",
 		Gen:  finGen,
 		Exec: finExec,
 	})
